@@ -160,6 +160,24 @@ def corrupt(r, data, how):
         depth = r.choice([10, 100, 900, 1100, 3000, 20000])
         tail = r.choice([b'', b'e' * depth])
         return (ch * depth)[:65000] + tail[:500]
+    if how == 'struct' and r.random() < 0.3:
+        # token-level: rewrite ONE integer or length token into something Python's int() still accepts but bencode
+        # does not allow (sign, blanks, newline and other whitespace, underscores, leading zeros) - 1..3-byte mutations
+        import re as _re
+        toks = [m for m in _re.finditer(rb'(?<![0-9])(?:i-?[0-9]+e|[0-9]+:)', data)]
+        if toks:
+            m = r.choice(toks)
+            tok = m.group(0)
+            digits = tok[1:-1] if tok[:1] == b'i' else tok[:-1]
+            neg = digits[:1] == b'-'
+            body = digits[1:] if neg else digits
+            ws = r.choice([b'\n', b' ', b'\t', b'\r', b'\x0b', b'\x0c'])
+            variants = [body + ws, ws + body, b'+' + body, b'0' + body, b'00' + body, body[:-1] + ws if len(body) > 1 else body + ws,
+                        body[:1] + b'_' + body[1:] if len(body) > 1 else b'0' + body, b'-' + body if not neg else b'--' + body,
+                        body + b'.0', body + b'L', b'0x' + body]
+            newdigits = (b'-' if neg else b'') + r.choice(variants)
+            newtok = (b'i' + newdigits + b'e') if tok[:1] == b'i' else (newdigits + b':')
+            return data[:m.start()] + newtok + data[m.end():]
     # structural: re-encode a decoded message with one structural change
     try:
         root = bref.decode(data)
